@@ -339,14 +339,29 @@ example :
 
 /-! ### upgraded sessions and direct mode: byte pumps -/
 
-/-- **C18 upgraded hand-over**: whatever the client had already sent behind the upgrading
-    request (`buffered`) and whatever it sends later, under any chunking, the service
-    receives exactly these bytes in order and the client receives exactly the service's
-    output (fix 84fe826; before it the buffered bytes were written back to the client). -/
-theorem C18_upgraded_pump (svcOut : Bytes → Bytes) (buffered : Bytes) (later : List Bytes) :
-    (upgradedPump svcOut buffered later).toService = buffered ++ later.flatten ∧
-    (upgradedPump svcOut buffered later).toClient = svcOut (buffered ++ later.flatten) := by
+/-- **C18 upgraded hand-over (partial)**: whatever the client had already sent behind the
+    upgrading request (`buffered`) and whatever it sends later, under any chunking, the
+    service receives exactly these bytes in order (fix 84fe826; before it the buffered bytes
+    were written back to the client); and the client receives exactly the service's output —
+    provided the service had sent nothing yet when the bridge read its reply to the upgrading
+    call (`readAhead = 0`). -/
+theorem C18_upgraded_pump_partial (svcOut : Bytes → Bytes) (buffered : Bytes) (later : List Bytes) (readAhead : Nat) :
+    (upgradedPump svcOut buffered later readAhead).toService = buffered ++ later.flatten ∧
+    (readAhead = 0 → (upgradedPump svcOut buffered later readAhead).toClient = svcOut (buffered ++ later.flatten)) := by
+  refine ⟨by simp [upgradedPump, copyLoop_eq_flatten], ?_⟩
+  intro h
+  subst h
   simp [upgradedPump, copyLoop_eq_flatten]
+
+/-- **dropped hypothesis: the service has sent nothing behind its reply yet** — a service that
+    speaks first (a greeting written together with the reply to the upgrading call) loses what
+    the bridge read ahead into the reply's `BufReader`: up to 8192 minus the reply's length -/
+theorem C18_upgrade_read_ahead_counterexample :
+    let svcOut : Bytes → Bytes := fun b => [103, 103, 103] ++ b.map (· + 1)
+    upgradedPump svcOut [] [[97]] (readAheadOf 27 3) = { toService := [97], toClient := [98] } ∧
+    (readAheadOf 27 20000 = 8165) ∧
+    (upgradedPump svcOut [] [[97]] 0).toClient = [103, 103, 103, 98] := by
+  decide
 
 /-- **C18 upgrade hands over every byte**: for every read schedule of the client's stream,
     when the bridge leaves the request loop for the byte pump, the upgraded service receives
@@ -357,13 +372,13 @@ theorem C18_upgrade_hands_over_all (w : World) (dec : Bytes → Frame) (reads : 
     (hu : (bridge w dec reads).status = .upgraded a i) :
     let b := bridge w dec reads
     let after := afterFrames (run w {} (clientFrames dec reads.flatten)).consumed reads.flatten
-    (upgradedPump svcOut b.buffered b.rest).toService = after ∧
-    (upgradedPump svcOut b.buffered b.rest).toClient = svcOut after := by
+    (upgradedPump svcOut b.buffered b.rest 0).toService = after ∧
+    (upgradedPump svcOut b.buffered b.rest 0).toClient = svcOut after := by
   have s := bridge_spec w dec reads hne
   obtain ⟨_, _, st, u⟩ := s
   rw [st] at hu
   have := u a i hu
-  simp only [upgradedPump, copyLoop_eq_flatten]
+  simp only [upgradedPump, copyLoop_eq_flatten, List.drop_zero]
   rw [this]
   exact ⟨rfl, rfl⟩
 
